@@ -277,9 +277,12 @@ class C10World(World):
         # the twin is "the uncached transform holding the current parameters": mirror M tensor by tensor, dtype
         # included (an interrupted dtype conversion may leave mixed dtypes - then the uncached transform is torn in
         # exactly the same way)
-        pairs = list(zip(self.M.parameters(), self.U.parameters())) + list(zip(self.M.buffers(), self.U.buffers()))
-        if len(list(self.M.parameters())) != len(list(self.U.parameters())) or len(list(self.M.buffers())) != len(list(self.U.buffers())):
-            raise HarnessError("cached and uncached instance of the same spec have different numbers of parameters/buffers")
+        mp, up = list(self.M.parameters()), list(self.U.parameters())
+        if len(mp) != len(up):
+            raise HarnessError("cached and uncached instance of the same spec have different numbers of parameters")
+        ub = dict(self.U.named_buffers())
+        # buffers by name, where both instances have them (a cached instance may own extra, volatile buffers)
+        pairs = list(zip(mp, up)) + [(v, ub[k]) for k, v in self.M.named_buffers() if k in ub]
         with torch.no_grad():
             # positional pairing: the two objects are instances of the same spec, so names (which a refactoring may map
             # through state-dict hooks) do not matter
@@ -825,7 +828,7 @@ class C10World(World):
                 try:
                     self.M.load_state_dict(part, strict=True)
                     log.add("strict_subset_load_did_not_raise")
-                except RuntimeError:
+                except Exception:   # noqa: BLE001 - how a load is refused is not C10's business
                     self.faults["failed_partial_load"] += 1
                     self.after_fault = True
             if any(flags) and len(keep) < len(keys):
@@ -840,7 +843,7 @@ class C10World(World):
             try:
                 self.M.load_state_dict(sd, strict=True)
                 log.add("bad_key_load_did_not_raise")
-            except RuntimeError:
+            except Exception:   # noqa: BLE001
                 self.faults["failed_partial_load"] += 1
                 if any(flags):
                     self.probes["failed_partial_load_with_filled_cache"] += 1
